@@ -82,6 +82,8 @@ def run_lib(pid, tier):
                                 res.known(fid, fmap.get(fid, {}).get("what", ""))
         if len(res.cov["samples"]) < 2:
             res.cov["samples"].append({"history": json.loads(open(path).readlines()[min(1500, n - 1)])})
+    if pid == "C18":
+        search_part(res, work, tier)
     res.cov["traces_validated_against_impl"] = total
     res.cov["evaluations"] = total
     res.cov["distinct_nontrivial"] = total
@@ -91,7 +93,7 @@ def run_lib(pid, tier):
                        "the last step the incremental answers, the answers of a Database freshly built from the same texts, the arena and "
                        "a patch graph are recorded and judged by TLC (Trace_Lib) against Lib.tla; distinct = distinct histories")
     res.assumptions += ["note texts are rendered from the abstract notes of Gen_Lib; heading/link texts are unique words",
-                        "paths and search results are compared as sets here (ordering is C16/C18-search)"]
+                        "paths are compared as sets; for C18 the cap and documented order of search results are judged by Trace_Search on generated libraries of 40-400 notes"]
     return res.finish()
 
 
@@ -105,6 +107,34 @@ def check_c05(tier):
 
 def check_c06(tier):
     return run_lib("C06", tier)
+
+
+def search_part(res, work, tier):
+    """C18: cap of 100 and documented order of Database::global_search on generated libraries with > 100 paths"""
+    import random
+    vh = build_harness()
+    rnd = random.Random(seed())
+    libs = [(rnd.randrange(1, 10**6), n) for n in ((40, 130, 300) if tier == "quick" else (40, 90, 130, 200, 300, 400, 150, 250))]
+    tr = os.path.join(work, "search.ndjson")
+    with open(tr, "w") as f:
+        for i, (s, n) in enumerate(libs):
+            out = os.path.join(work, "search_%d.ndjson" % i)
+            rc, log_, _ = run([vh, "lib-search", str(s), str(n), out], 900)
+            if rc != 0:
+                raise ToolError("lib-search failed: " + log_[-1000:])
+            f.write(open(out).read())
+    r = tlc("Trace_Search.tla", "Trace_Search.cfg", os.path.join(work, "trse"), workers=1, timeout=1800, env={"TRACE": tr}, trace_mode=True,
+            heap="4g")
+    if '"ACCEPTED"' not in r["out"]:
+        raise ToolError("Trace_Search did not consume the trace:\n" + r["out"][-2000:])
+    events = [json.loads(l) for l in open(tr)]
+    for v in prints(r["out"], "VERDICT"):
+        e = events[v["line"] - 1]
+        p = save_replay(work, "C18_search_%d" % v["line"], {"property": "C18", "reasons": v["bad"][:10], "library": {"seed": e["seed"], "notes": e["notes"]},
+                                                             "query": e["query"], "returned": e["returned"][:120]})
+        res.violation(p, "query %r on %d notes: %s" % (e["query"], e["notes"], json.dumps(v["bad"])[:200]))
+    res.cov["search_queries_judged"] = len(events)
+    res.cov["search_listing_sizes"] = sorted({len(e["all"]) for e in events})
 
 
 def check_c18(tier):
@@ -129,10 +159,33 @@ def check_c17(tier):
         raise ToolError("Gen_Squash produced nothing")
     shards = 10
     evs = [os.path.join(work, "ev.%d.ndjson" % i) for i in range(shards)]
-    cmds = [[vh, "squash-replay", cases, evs[i], "--shard", "%d/%d" % (i, shards)] for i in range(shards)]
-    for rc, out in parallel(cmds, 3000):
-        if rc != 0:
-            raise ToolError("squash-replay failed: " + out[-2000:])
+    ncases = sum(1 for _ in open(cases))
+
+    def run_shard(i):
+        # a stack overflow aborts the harness process: attribute it to the case it was working on and resume
+        start = 0
+        for _ in range(200):
+            rc, out, _ = run([vh, "squash-replay", cases, evs[i], "--shard", "%d/%d" % (i, shards), "--from", str(start)], 3000)
+            if rc == 0:
+                return
+            begun, done, lines = -1, -1, []
+            for line in open(evs[i]):
+                e = json.loads(line)
+                if e["ev"] == "Begin":
+                    begun = e["case"]
+                else:
+                    done = e["case"]
+            if begun <= done:
+                raise ToolError("squash-replay failed (%s): %s" % (rc, out[-1000:]))
+            c = json.loads(open(cases).readlines()[begun])
+            with open(evs[i], "a") as f:
+                f.write(json.dumps({"ev": "Squash", "case": begun, "docs": c["docs"], "root": c["root"], "depth": c["depth"],
+                                    "res": "abort(rc=%s)" % rc, "tree_bag": [], "md_bag": []}) + "\n")
+            start = begun + 1
+        raise ToolError("squash-replay kept dying")
+
+    with concurrent.futures.ThreadPoolExecutor(max_workers=shards) as ex:
+        list(ex.map(run_shard, range(shards)))
 
     def judge(i):
         r = tlc("Trace_Squash.tla", "Trace_Squash.cfg", os.path.join(work, "tr_%d" % i), workers=1, timeout=3000, env={"TRACE": evs[i]},
@@ -154,7 +207,7 @@ def check_c17(tier):
                 p = save_replay(work, "C17_case%d" % v["case"], {"property": pid, "reasons": v["bad"][:10], "event": ev})
                 res.violation(p, "depth %d: %s" % (v["depth"], json.dumps(v["bad"])[:300]))
     for i in range(shards):
-        total += sum(1 for _ in open(evs[i]))
+        total += sum(1 for l in open(evs[i]) if '"ev":"Squash"' in l or '"ev": "Squash"' in l)
     res.cov["traces_validated_against_impl"] = total
     res.cov["evaluations"] = total
     res.cov["distinct_nontrivial"] = n
